@@ -5,7 +5,6 @@
 package ref
 
 import (
-	"fmt"
 	"strings"
 
 	"verifsim/internal/env"
@@ -268,7 +267,7 @@ type machine struct {
 	epoch  int
 	tr     trace.Trace
 	stack  []*node
-	seen   map[string]bool
+	seen   map[refKey]struct{}
 	lim    Limits
 	done   bool
 	Probes map[string]int
@@ -283,7 +282,7 @@ func (m *machine) probe(name string) {
 func (m *machine) event(c *model.Cmd) {
 	m.tr.Events = append(m.tr.Events, RenderCmdIn(m.p.file, c))
 	m.epoch++
-	m.seen = map[string]bool{}
+	clear(m.seen)
 }
 
 func (m *machine) decide(b bool) bool {
@@ -393,13 +392,19 @@ func (m *machine) eval(e *model.Expr) bool {
 	panic("ref: bad expr")
 }
 
-func (m *machine) key(n *node) string {
-	var sb strings.Builder
-	fmt.Fprintf(&sb, "%d", n.id)
-	for _, s := range m.stack {
-		fmt.Fprintf(&sb, ",%d", s.id)
+// refKey is the exact state of the interpreter between two command events.
+type refKey struct {
+	node  int32
+	depth int8
+	stack [32]int32
+}
+
+func (m *machine) key(n *node) refKey {
+	k := refKey{node: int32(n.id), depth: int8(len(m.stack))}
+	for i, s := range m.stack {
+		k.stack[i] = int32(s.id)
 	}
-	return sb.String()
+	return k
 }
 
 func (m *machine) doReturn() *node {
@@ -450,7 +455,7 @@ func (m *machine) step(n *node) *node {
 			if len(c.Args) == 1 && c.Args[0].Kind == model.ArgPlain {
 				l := env.Canon(m.p.file.Sub(PlainArg(&c.Args[0])))
 				if t, ok := m.p.labels[l]; ok {
-					if len(m.stack) >= m.lim.Stack {
+					if len(m.stack) >= m.lim.Stack || len(m.stack) >= 32 {
 						return m.finish("overflow")
 					}
 					m.probe("user_call_internal")
@@ -554,7 +559,7 @@ func (m *machine) step(n *node) *node {
 
 // Run executes the entry and returns its trace. probes may be nil.
 func (p *Program) Run(entry string, e *env.Env, lim Limits, probes map[string]int) *trace.Trace {
-	m := &machine{p: p, env: e, lim: lim, seen: map[string]bool{}, Probes: probes}
+	m := &machine{p: p, env: e, lim: lim, seen: map[refKey]struct{}{}, Probes: probes}
 	n, ok := p.entries[entry]
 	if !ok {
 		m.tr.Finish = "fault: no such entry " + entry
@@ -570,11 +575,11 @@ func (p *Program) Run(entry string, e *env.Env, lim Limits, probes map[string]in
 			break
 		}
 		k := m.key(n)
-		if m.seen[k] {
+		if _, dup := m.seen[k]; dup {
 			m.tr.Finish = "hang"
 			break
 		}
-		m.seen[k] = true
+		m.seen[k] = struct{}{}
 		n = m.step(n)
 	}
 	return &m.tr
